@@ -211,3 +211,25 @@ Proof.
       apply (is_derive_const (V := R_NormedModule) y t0).
   - apply IH; [lia|]. intros E. specialize (Hy E). inversion Hy; auto.
 Qed.
+
+(* ---- use_linear_correction: the corrected model values a + b*f and the scaled Jacobian column, (b, a) held fixed ---- *)
+Definition corrected_fs (b a : R) (fs : list (R -> R)) : list (R -> R) := map (fun f t => a + b * f t) fs.
+Definition corrected_ds (b : R) (ds : list R) : list R := map (fun d => d * b) ds.
+
+Theorem corrected_jacobian b a fs t0 ds : derivs fs t0 ds -> derivs (corrected_fs b a fs) t0 (corrected_ds b ds).
+Proof.
+  induction 1 as [|f d fs ds Hf _ IH]; cbn [corrected_fs corrected_ds map]; constructor; [|exact IH].
+  replace (d * b) with (0 + b * d) by ring.
+  apply (is_derive_plus (V := R_NormedModule) (fun _ => a) (fun t => b * f t) t0 0 (b * d)).
+  - apply (is_derive_const (V := R_NormedModule) a t0).
+  - apply is_derive_scal. exact Hf.
+Qed.
+
+(* composed with the residual assembly: what get_fitness_vector_and_jacobian returns under linear correction *)
+Theorem corrected_residual_jacobian relative b a fs ys t0 ds : derivs fs t0 ds -> length ys = length fs ->
+  (relative = true -> Forall (fun y => y <> 0) ys) ->
+  derivs (residual_fs relative (corrected_fs b a fs) ys) t0 (residual_ds relative (corrected_ds b ds) ys).
+Proof.
+  intros H Hl Hy. apply residual_jacobian; [apply corrected_jacobian; exact H| |exact Hy].
+  unfold corrected_fs. rewrite map_length. exact Hl.
+Qed.
